@@ -474,7 +474,7 @@ func (c *AnalyzeCommand) printSummary(cmd *cobra.Command, response *domain.Analy
 
 	if response.Summary.DepsEnabled {
 		icon := getScoreIcon(response.Summary.DependencyScore)
-		cyclesMsg := fmt.Sprintf("%d cycles", response.Summary.DepsModulesInCycles)
+		cyclesMsg := fmt.Sprintf("%d modules in cycles", response.Summary.DepsModulesInCycles)
 		if response.Summary.DepsModulesInCycles == 0 {
 			cyclesMsg = "no cycles"
 		}
